@@ -15,4 +15,5 @@
 //@ include contracts/params.rs as callee
 //@ include contracts/ctype.rs as callee
 //@ include contracts/request.rs
+//@ include contracts/determinism.rs
 //@ include prelude/tail.rs
